@@ -539,17 +539,17 @@ Qed.
 
 (* ---------- _track_new_object ---------- *)
 Lemma track_new_ok : forall w r o, Idx w -> Tree w -> get_obj w (o_full o) = None -> o_region o = r ->
-  o_children o = [] -> region_state w r <> None -> lid_unique w r (o_lid o) (o_full o) -> o_parent o <> o_lid o ->
+  o_children o = [] -> o_plink o = None -> region_state w r <> None -> lid_unique w r (o_lid o) (o_full o) -> o_parent o <> o_lid o ->
   track_new w r o <> None.
 Proof.
-  intros w r o I T Hn Hr Hc Hrs Hu Hself. pose proof I as (K & A & B). unfold track_new.
+  intros w r o I T Hn Hr Hc Hpl Hrs Hu Hself. pose proof I as (K & A & B). unfold track_new.
   destruct (region_state w r) as [rs|] eqn:Ers; [|congruence]. apply region_state_some in Ers. destruct Ers as [Ers Ht].
   assert (Hfree : aget (o_lid o) (r_local rs) = None).
   { destruct (aget (o_lid o) (r_local rs)) as [g|] eqn:Eg; [|reflexivity].
     pose proof (Hu _ _ Ers Eg) as ->. destruct (A _ _ _ _ Ers Eg) as (og & Eog & _). congruence. }
   assert (Eo : get_obj (set_obj w o) (o_full o) = Some o) by (rewrite get_obj_set_obj, N.eqb_refl; reflexivity).
   assert (T0 : TreeG (set_obj w o) (oset no_ovr (o_full o) None) None).
-  { apply TreeG_new_obj; [apply Idx_Base; exact I|exact T|exact Hn|exact Hc]. }
+  { apply TreeG_new_obj; [apply Idx_Base; exact I|exact T|exact Hn|exact Hc|exact Hpl]. }
   assert (B0 : Base (set_obj w o)) by (eapply IdxX_Base; apply IdxX_new; eauto).
   destruct (track_object (set_obj w o) r (o_full o)) as [w1|] eqn:E; cbn [bind].
   2:{ exfalso. eapply (track_object_ok (set_obj w o) r (o_full o) o rs); eauto. }
@@ -576,10 +576,10 @@ Qed.
 
 Lemma second_block_ok : forall w1 f o1 o2 nr (b : bool), Idx w1 -> Tree w1 -> get_obj w1 f = Some o1 ->
   o_lid o2 = o_lid o1 -> o_full o2 = o_full o1 -> o_region o2 = o_region o1 -> o_children o2 = o_children o1 ->
-  o_region o1 = nr ->
+  o_plink o2 = o_plink o1 -> o_region o1 = nr ->
   (if b then handle_object_reparented (set_obj w1 o2) nr f (o_parent o1) else Some (set_obj w1 o2)) <> None.
 Proof.
-  intros w1 f o1 o2 nr b I T Eo H1 H2 H3 H4 Hr. pose proof I as (K & A & B). pose proof (K _ _ Eo) as Kf.
+  intros w1 f o1 o2 nr b I T Eo H1 H2 H3 H4 H5 Hr. pose proof I as (K & A & B). pose proof (K _ _ Eo) as Kf.
   destruct b; [|discriminate].
   destruct (B _ _ Eo) as (rs & Ers & _ & Elx). rewrite Hr in Ers.
   assert (T2 : TreeG (set_obj w1 o2) (oset no_ovr f (Some (o_parent o1))) None).
@@ -621,7 +621,7 @@ Proof.
       pose proof (update_properties_tcore _ _ _ _ Eu) as C. apply tcore_inj' in C. cbn in C. destruct C as (U1 & U2 & U3 & U4 & U5).
       rewrite Qr2. cbn [negb andb].
       match goal with |- bind ?x _ <> None => destruct x as [w3|] eqn:E end; cbn [bind].
-      2:{ exfalso. revert E. eapply (second_block_ok w f o o2 nr _ I T Eo); [| | |exact U5|exact Qr].
+      2:{ exfalso. revert E. eapply (second_block_ok w f o o2 nr _ I T Eo); [| | |exact U5|exact (update_properties_plink _ _ _ _ Eu)|exact Qr].
           - transitivity nl; [exact U1|symmetry; exact Ql].
           - exact U2.
           - transitivity nr; [exact U3|symmetry; exact Qr]. }
@@ -645,7 +645,9 @@ Proof.
       assert (UNI : forall r rs c, get_rs w1 r = Some rs -> aget c (r_local rs) <> Some f).
       { intros r rs c E1' E2'. destruct IX1 as (_ & AX & _). destruct (AX _ _ _ _ E1' E2') as [Hne _]. congruence. }
       assert (TG1' : TreeG (set_obj w1 (with_lid o1 nl)) (oset no_ovr f None) None).
-      { eapply TreeG_set_detached; [eapply IdxX_Base; exact IX1|exact TG1| |exact UNI|eauto| |exact Hch1].
+      { assert (Pl1 : o_plink o1 = None).
+        { eapply (detached_plink_none w1 _ None f o1); [apply IX1|exact TG1| |exact E0]. unfold oset. rewrite N.eqb_refl. reflexivity. }
+        eapply TreeG_set_detached; [eapply IdxX_Base; exact IX1|exact TG1| |exact UNI|eauto| |exact Hch1|exact Pl1].
         - unfold oset. rewrite N.eqb_refl. reflexivity.
         - cbn. congruence. }
       assert (IX1' : IdxX (set_obj w1 (with_lid o1 nl)) f).
@@ -684,7 +686,7 @@ Proof.
       pose proof I2 as (K2 & _).
       match goal with |- bind ?x _ <> None => destruct x as [w3|] eqn:E3 end; cbn [bind].
       2:{ exfalso. revert E3. rewrite <- P1p, <- Cbp.
-          eapply (second_block_ok w2 f o1b o2 nr _ I2 T2 E2); [| | |exact U5|].
+          eapply (second_block_ok w2 f o1b o2 nr _ I2 T2 E2); [| | |exact U5|exact (update_properties_plink _ _ _ _ Eu)|].
           - rewrite U1, Cbl. exact Dl.
           - exact U2.
           - rewrite U3, Cbr, C1r. transitivity nr; [exact Dr|symmetry; exact Qr].
@@ -713,9 +715,12 @@ Proof.
     assert (UNI : forall r rs c, get_rs w1 r = Some rs -> aget c (r_local rs) <> Some f).
     { intros r rs c E1' E2'. destruct IX1 as (_ & AX & _). destruct (AX _ _ _ _ E1' E2') as [Hne _]. congruence. }
     assert (TG2 : TreeG (set_obj w1 o2) (oset no_ovr f None) None).
-    { eapply TreeG_set_detached; [eapply IdxX_Base; exact IX1|exact TG1| |exact UNI|eauto| |congruence].
+    { assert (Pl1 : o_plink o1 = None).
+      { eapply (detached_plink_none w1 _ None f o1); [apply IX1|exact TG1| |exact Eo1]. unfold oset. rewrite N.eqb_refl. reflexivity. }
+      eapply TreeG_set_detached; [eapply IdxX_Base; exact IX1|exact TG1| |exact UNI|eauto| |congruence|].
       - unfold oset. rewrite N.eqb_refl. reflexivity.
-      - congruence. }
+      - congruence.
+      - rewrite (update_properties_plink _ _ _ _ Eu). exact Pl1. }
     assert (IX2 : IdxX (set_obj w1 o2) f).
     { apply IdxX_set_obj; [exact IX1|]. congruence. }
     assert (Eo2 : get_obj (set_obj w1 o2) f = Some o2).
